@@ -15,7 +15,9 @@ structure MachineOK (cfg : Config σ τ ε) : Prop where
   flags : flagsClosed cfg.dfa = true
   acceptAny : acceptAnyClause cfg.dfa = true
   targets : targetsOK cfg.dfa = true
-  initNotInlined : InitialNotInlined cfg.dfa
+  /-- the set of inlined states is strictly ascending, in range and contains no initial state
+  (nothing else is assumed about the inlining policy) -/
+  inl : InlOK cfg.dfa cfg.inl
   /-- state 0 (where failures return to; `Init`) is an initial, non-accepting state -/
   state0 : 0 < cfg.dfa.length ∧ (cfg.dfa.st 0).initial = true ∧ (cfg.dfa.st 0).accepting = []
   /-- rule-set entries are initial, non-accepting states (no rule matches the empty string) -/
@@ -29,6 +31,6 @@ def IsEntry (cfg : Config σ τ ε) (e : Nat) : Prop := e = 0 ∨ ∃ name, (nam
 /-- Lexer state at the top of the `loop` in `next()`: no saved match, `__state = __initial_state`
 = the number of a rule set's entry state. -/
 def Ready (cfg : Config σ τ ε) (st : LState σ) : Prop :=
-  st.last = none ∧ st.state = st.initial ∧ ∃ e, IsEntry cfg e ∧ st.state = renumber (inlinedStates cfg.dfa) e
+  st.last = none ∧ st.state = st.initial ∧ ∃ e, IsEntry cfg e ∧ st.state = renumber cfg.inl e
 
 end Lexgen
